@@ -147,7 +147,9 @@ def showSpec (sp : Pepit.Method.Spec) : String :=
   let sm := sp.samples.map fun t => showPDict t.1 ++ "|" ++ showPDict t.2.1 ++ "|" ++ showEDict t.2.2
   let ini := sp.init.map fun c => (if c.2 then "eq" else "le") ++ "|" ++ showEDict c.1
   let me := sp.metrics.map showEDict
-  s!"samples=[{String.intercalate ";" sm}] init=[{String.intercalate ";" ini}] metrics=[{String.intercalate ";" me}]"
+  let sh (l : List (PDict × PDict × EDict)) := String.intercalate ";" (l.map fun t => showPDict t.1 ++ "|" ++ showPDict t.2.1 ++ "|" ++ showEDict t.2.2)
+  let extra := (if sp.samples2.isEmpty then "" else s!" samples2=[{sh sp.samples2}]") ++ (if sp.samples3.isEmpty then "" else s!" samples3=[{sh sp.samples3}]")
+  s!"samples=[{String.intercalate ";" sm}] init=[{String.intercalate ";" ini}] metrics=[{String.intercalate ";" me}]{extra}"
 
 def parseRats (l : List String) : Option (List Rat) := l.mapM parseRat
 
@@ -407,6 +409,10 @@ def stepCore (e : Env) (line : String) : Env × String :=
       let some γ := parseRat g | throw "bad rat"
       let some n := ns.toNat? | throw "bad n"
       pure (e, showSpec (Pepit.Method.gdc γ n))
+    | "spec.pg" :: _ :: _ :: _ :: g :: ns :: _ =>
+      let some γ := parseRat g | throw "bad rat"
+      let some n := ns.toNat? | throw "bad n"
+      pure (e, showSpec (Pepit.Method.pg γ n))
     | "spec.subg" :: _ :: g :: ns :: _ =>
       let some γ := parseRat g | throw "bad rat"
       let some n := ns.toNat? | throw "bad n"
